@@ -85,6 +85,11 @@ RULE_SCHED = (
 def c02(tier, seed):
     return dict(
         jobs=w3_jobs(seed) + sched_jobs(tier, seed, gen=dict(nmax=9, mc_max=4), selections=True)
+        # a dependency that RAISES has not returned either: failing nodes of every resource, nothing downstream may be entered
+        + sched_jobs(tier, seed + 13, gen=dict(nmax=7, mc_max=3), faults=True, fault_rate=0.7, stress=False, dfs=False, scale=0.3)
+        # executors that are run again (after a failure / a success), both flavours: no missing or stale values on the second run
+        + [dict(kind="hist15", pid="C02", n_histories=(40 if tier == "quick" else 400), only=["executor_rerun_used_partially_consumed_graph"],
+                **_seeds(seed + 65, k)) for k in range(2 if tier == "quick" else 8)]
         + diff_jobs("C02", tier, seed, dict(flags=0.2, nest=0.3, nest_flag=0.0, share_fns=0.3), 2, nj_scale=0.5,
                     only=["call_site_received_wrong_values"]),
         level="exploration", rule=RULE_SCHED + RULE_W3 + "; plus generated programs with nested DAGs (depth 2), operators, indexing and keyword "
@@ -105,6 +110,13 @@ def c03(tier, seed):
         + [dict(kind="hist11", pid="C03", n_histories=(40 if tier == "quick" else 400),
                 only=["executed_set_differs_from_model", "ran_setup_node_the_selection_does_not_need", "setup_node_ran_more_than_once_on_one_instance"],
                 **_seeds(seed + 90, k)) for k in range(2 if tier == "quick" else 8)]
+        # ... nor a disabled debug node, in any execution mode of either flavour
+        + [dict(kind="dbg", pid="C03", random_shapes=(60 if tier == "quick" else 600), nmax=7,
+                only=["debug_node_ran_with_flag_off(call)", "debug_node_ran_with_flag_off(executor)", "debug_node_ran_with_flag_off(setup)"],
+                **_seeds(seed + 82, k)) for k in range(1 if tier == "quick" else 4)]
+        # ... nor is an already-set-up or already-cached node entered again by an execution restarted from a cache file
+        + [dict(kind="cache18", pid="C03", n_cases=(100 if tier == "quick" else 1000), only=["restart_executed_set_wrong", "restart_recomputed_cached_nodes"],
+                **_seeds(seed + 80, k)) for k in range(1 if tier == "quick" else 4)]
         # "the function of every other node (unselected ...) is not entered at all", however the selection is spelled: ids of
         # reused functions, tags (shared, substrings of each other, equal to another node's id), references, lists and tuples
         + [dict(kind="sel", pid="C03", exhaustive_n=[], random_shapes=(40 if tier == "quick" else 300), nmin=4, nmax=8, triples_per_shape=30,
@@ -275,8 +287,14 @@ def diff_jobs(pid, tier, seed, feats, depth, scale=1.0, clauses=True, only=None,
 @plan("C01")
 def c01(tier, seed):
     return dict(
-        jobs=diff_jobs("C01", tier, seed, dict(flags=0.2, nest=0.15, nest_flag=0.15, share_fns=0.3), 2),
-        level="exploration", rule=RULE_DIFF, assumptions=ASSUME_DIFF,
+        jobs=diff_jobs("C01", tier, seed, dict(flags=0.2, nest=0.15, nest_flag=0.15, share_fns=0.3), 2)
+        # the k-th call on ONE object (after calls, executors, composes, reloads, failing calls; both flavours) still returns what
+        # plain Python returns; so does an executor that is run again
+        + [dict(kind="hist15", pid="C01", n_histories=(40 if tier == "quick" else 400),
+                only=["call_outcome_depends_on_earlier_history", "call_after_history_raised", "executor_rerun_used_partially_consumed_graph"],
+                **_seeds(seed + 55, k)) for k in range(2 if tier == "quick" else 8)],
+        level="exploration", rule=RULE_DIFF + "; plus histories on one DAG object (calls, executors, composes, configuration reloads, failing "
+        "calls, executor re-runs) where every later call must still equal its plain-Python reference", assumptions=ASSUME_DIFF,
         required_reach=["value_comparisons", "programs", "FENTER", "XENTER"], parallel=8 if tier == "quick" else 16,
     )
 
@@ -284,9 +302,14 @@ def c01(tier, seed):
 @plan("C10")
 def c10(tier, seed):
     return dict(
-        jobs=diff_jobs("C10", tier, seed, dict(flags=0.5, nest=0.25, nest_flag=0.6, max_stmts=7, ops=0.08, kwargs=0.3), 2),
+        jobs=diff_jobs("C10", tier, seed, dict(flags=0.5, nest=0.25, nest_flag=0.6, max_stmts=7, ops=0.08, kwargs=0.3), 2)
+        # flags fed by SETUP results over histories on one object (partial setup, executors, calls, deep copies, reloads): a node runs
+        # iff its flag is truthy when the execution runs - also when the flag's producer had not run when setup() was called
+        + [dict(kind="hist11", pid="C10", n_histories=(150 if tier == "quick" else 1500), require_flags=True,
+                only=["executed_set_differs_from_model", "later_execution_does_not_see_first_setup_value"],
+                **_seeds(seed + 45, k)) for k in range(2 if tier == "quick" else 8)],
         level="exploration",
-        rule=RULE_DIFF + "; flag forms: every truthy/falsy constant, DAG argument, node result, result[key], nested keys, unpacked element, "
+        rule=RULE_DIFF + "; plus histories (setup(targets), executors, calls, copies) on DAGs whose flags are results of setup nodes; flag forms: every truthy/falsy constant, DAG argument, node result, result[key], nested keys, unpacked element, "
         "and_/or_/not_ and operator expressions; positions: plain call site, reused function, call site inside an inner DAG, nested-DAG "
         "call. Per flagged call site: entered iff the flag is truthy in the reference run; every executed call site received the "
         "reference's argument terms (None from deactivated producers)",
@@ -346,9 +369,13 @@ def c13(tier, seed):
         for p in range(16):
             jobs.append(dict(kind="dbg", random_shapes=250, nmax=9, exhaustive_n=[4], part=p, nparts=16, **_seeds(seed, p)))
         jobs.append(dict(kind="dbg", random_shapes=0, exhaustive_n=[2, 3], **_seeds(seed, 99)))
+    # the switch given the documented way - through the environment of the process - in its accepted spellings
+    for k, (val, want) in enumerate([("True", True), ("true", True), ("1", True), ("False", False), ("0", False)]):
+        jobs.append(dict(kind="dbg", random_shapes=5, nmax=6, env={"RUN_DEBUG_NODES": val}, expect_env_flag=want, **_seeds(seed + 30, k)))
     return dict(
         jobs=jobs, level="exploration",
-        rule="DAG shapes (all on 2..3 nodes, thorough: ..4; random up to 9 nodes) with a random descendant-closed set of debug nodes (chains, "
+        rule="RUN_DEBUG_NODES=<True|true|1|False|0> in the environment of fresh processes: the flag and the behaviour of a whole-DAG call follow it; "
+        "DAG shapes (all on 2..3 nodes, thorough: ..4; random up to 9 nodes) with a random descendant-closed set of debug nodes (chains, "
         "multi-parent debug nodes) and optional setup nodes x {call, 5 random executors with root/exclude/target selections that may name "
         "debug nodes, setup(), setup(target)} x RUN_DEBUG_NODES off/on on freshly built DAGs; flag off: no debug FENTER; flag on: whole-DAG "
         "call runs every debug node once, a pulled-in debug node (outside the closure) has every dependency executed; non-debug executed "
@@ -356,7 +383,8 @@ def c13(tier, seed):
         "distinct = distinct (shape, debug set, operation)",
         assumptions=["RUN_DEBUG_NODES is process-global (tawazi.config.cfg): toggled between cases, single-threaded",
                      "a debug node inside the closure with a parent cut away by root_nodes follows C12 semantics and is not flagged (DESIGN 6.10)"],
-        required_reach=["c13_flag_off_checks", "c13_whole_call_flag_on", "c13_pulled_in_debug_nodes", "c13_on_off_comparisons", "c13_illegal_build_rejected"],
+        required_reach=["c13_flag_off_checks", "c13_whole_call_flag_on", "c13_pulled_in_debug_nodes", "c13_on_off_comparisons", "c13_illegal_build_rejected",
+                        "c13_env_flag_checks", "c13_runs_after_config_reload"],
         parallel=8 if tier == "quick" else 16,
     )
 
@@ -385,15 +413,21 @@ def c11(tier, seed):
 def c15(tier, seed):
     nj, nh = (8, 200) if tier == "quick" else (32, 1000)
     return dict(
-        jobs=[dict(kind="hist15", n_histories=nh, **_seeds(seed, k)) for k in range(nj)],
+        jobs=[dict(kind="hist15", n_histories=nh, **_seeds(seed, k)) for k in range(nj)]
+        # "... except setup results": what an execution leaves on the instance about SETUP nodes must be their first value - never
+        # a None for a setup node the execution did not select, never a value that makes a later execution skip or repeat one
+        + [dict(kind="hist11", pid="C15", n_histories=(60 if tier == "quick" else 600),
+                only=["later_execution_does_not_see_first_setup_value", "setup_node_in_selection_did_not_run", "executed_set_differs_from_model"],
+                **_seeds(seed + 35, k)) for k in range(2 if tier == "quick" else 8)],
         level="exploration",
-        rule="random histories (2..8 operations) over {call with full args, call omitting the defaulted argument, executor create+run, executor "
+        rule="histories with setup nodes (calls, executors with selections, setup(targets), deep copies, reloads; both flavours): setup "
+        "results are the only state that survives and it is always the first value; random histories (2..8 operations) over {call with full args, call omitting the defaulted argument, executor create+run, executor "
         "created but not run, compose(...)+run of the composed DAG, config_from_dict reload, failing call (injected node fault), call with "
         "a missing required argument, call with a surplus argument, executor re-run after a failed first run, executor re-run after a "
         "successful first run} followed by one more call; every checked call uses fresh argument nonces and must return the reference "
         "value for its own arguments and execute exactly the active call sites; an executor's second run must raise TawaziUsageError or "
         "execute its complete selection and return the right value; distinct = distinct (program, history)",
-        assumptions=["DAGs without setup nodes (C11 owns setup state)", "the DAG-level results key set is additionally compared before/after (internal attribute, secondary evidence)"],
+        assumptions=["the call-history workload uses DAGs without setup nodes; setup state is covered by the (C11) setup-history workload run under this property's clause", "the DAG-level results key set is additionally compared before/after (internal attribute, secondary evidence)"],
         required_reach=["c15_checked_calls", "c15_executor_reruns_after_failure", "c15_executor_reruns_after_success"],
         parallel=8 if tier == "quick" else 16,
     )
